@@ -7,7 +7,7 @@ namespace Leptos.RView
 open Leptos.Reactive
 
 /-- **one poll of any task keeps the invariant** -/
-theorem InvCM.poll {K : Nat} {v : View} {st : St} (h : InvCM K v st) (hw : v.wf K = true) (hc : v.coreS = true)
+theorem InvCM.poll {K : Nat} {v : View} {st : St} (h : InvCM K v st) (hre : RerunOK K v)
     {e : Nat} (he : e ∈ st.tasks) (hedone : (st.rs.get e).done = false) : InvCM K v (pollTask st e) := by
   obtain ⟨t, ht⟩ := h.tree
   have hzbound := zEffs_boundM h.zb h.zok
@@ -17,10 +17,10 @@ theorem InvCM.poll {K : Nat} {v : View} {st : St} (h : InvCM K v st) (hw : v.wf 
     · obtain ⟨x, _, hk⟩ := ht.eff hd; exact ⟨hk.ke, x, hk.prog⟩
     · exact hzbound e hd
   by_cases healive : (st.rs.get e).alive = true
-  · exact pollAliveM hw hc h ⟨hb.1, hb.2, healive, hedone, he⟩
+  · exact pollAliveM hre h ⟨hb.1, hb.2, healive, hedone, he⟩
   · exact h.dead hb.1 hb.2 (by simpa using healive)
 
-theorem InvCM.pollNth {K : Nat} {v : View} {st : St} (h : InvCM K v st) (hw : v.wf K = true) (hc : v.coreS = true)
+theorem InvCM.pollNth {K : Nat} {v : View} {st : St} (h : InvCM K v st) (hre : RerunOK K v)
     (i : Nat) : InvCM K v (RView.pollNth st i) := by
   unfold RView.pollNth
   simp only
@@ -33,16 +33,16 @@ theorem InvCM.pollNth {K : Nat} {v : View} {st : St} (h : InvCM K v st) (hw : v.
       unfold ready at hm ⊢
       have := List.mem_filter.1 hm
       exact ⟨this.1, by have := this.2; simp only [Bool.and_eq_true, Bool.not_eq_true'] at this; exact this.2⟩
-    exact h.poll hw hc hf.1 hf.2
+    exact h.poll hre hf.1 hf.2
 
-theorem InvCM.runIdle {K : Nat} {v : View} (hw : v.wf K = true) (hc : v.coreS = true) :
+theorem InvCM.runIdle {K : Nat} {v : View} (hre : RerunOK K v) :
     ∀ (k : Nat) (st : St), InvCM K v st → InvCM K v (RView.runIdle k st)
   | 0, st, h => h
   | k + 1, st, h => by
     simp only [RView.runIdle]
     split
     · exact h
-    · exact InvCM.runIdle hw hc k _ (h.pollNth hw hc 0)
+    · exact InvCM.runIdle hre k _ (h.pollNth hre 0)
 
 theorem InvCM.setSig {K : Nat} {v : View} {st : St} (h : InvCM K v st) (id : Nat) (w : Int) :
     InvCM K v (RView.setSig st id w) := by
@@ -70,14 +70,14 @@ theorem InvCM.setSig {K : Nat} {v : View} {st : St} (h : InvCM K v st) (id : Nat
 def InvDM (K : Nat) (v : View) (st : St) : Prop :=
   (st.disposed = true ∧ st.root = none) ∨ (st.disposed = false ∧ InvCM K v st)
 
-theorem InvDM.step {K : Nat} {v : View} {st : St} (h : InvDM K v st) (hw : v.wf K = true) (hc : v.coreS = true)
+theorem InvDM.step {K : Nat} {v : View} {st : St} (h : InvDM K v st) (hre : RerunOK K v)
     (op : Op) : InvDM K v (RView.step st op) := by
   rcases h with h | h
   · exact Or.inl (step_disposed st op h)
   · cases op with
     | set id w => exact Or.inr ⟨h.1, h.2.setSig id w⟩
-    | poll i => exact Or.inr ⟨(pollNth_book st i).1.trans h.1, h.2.pollNth hw hc i⟩
-    | idle => exact Or.inr ⟨(runIdle_book 4096 st).1.trans h.1, InvCM.runIdle hw hc 4096 st h.2⟩
+    | poll i => exact Or.inr ⟨(pollNth_book st i).1.trans h.1, h.2.pollNth hre i⟩
+    | idle => exact Or.inr ⟨(runIdle_book 4096 st).1.trans h.1, InvCM.runIdle hre 4096 st h.2⟩
     | dispose => exact Or.inl (dispose_disposed st)
 
 /-! ## the start state -/
@@ -200,12 +200,12 @@ theorem InvDM.run {p : Program} (hw : p.wf = true) (hc : p.view.coreS = true) (o
       InvDM p.defs.length p.view (ops.foldl RView.step s0) := by
     induction ops with
     | nil => intro s0 h; exact h
-    | cons op rest ih => intro s0 h; exact ih _ (h.step hw'.2 hc op)
+    | cons op rest ih => intro s0 h; exact ih _ (h.step (rerunOK_coreS hw'.2 hc) op)
   exact h0 _ (InvDM.start hw hc)
 
 /-- at an idle point of a state satisfying the invariant the DOM is the fresh render -/
-theorem InvCM.settled {K : Nat} {v : View} {st : St} (h : InvCM K v st) (hidle : ready st = []) :
-    st.dom = render st.env v := by
+theorem InvCM.settled {K : Nat} {v : View} {st : St} (h : InvCM K v st) (hc : v.coreS = true)
+    (hidle : ready st = []) : st.dom = render st.env v := by
   obtain ⟨t, ht⟩ := h.tree
   have hnp : ∀ e ∈ effsOf t, (st.rs.get e).chan = false := by
     intro e he
@@ -222,7 +222,7 @@ theorem InvCM.settled {K : Nat} {v : View} {st : St} (h : InvCM K v st) (hidle :
         simp [hwk, hok.done]
       rw [hidle] at this; simp at this
   simp only [St.dom, ht.root]
-  exact GoodM.serialize_eq h.rm v t ht.good hnp
+  exact GoodM.serialize_eq h.rm v t ht.good hc hnp
 
 /-- a well-formed view (the grammar of the theorems) has no component-local state -/
 theorem wf_coreS {k : Nat} : ∀ (v : View), v.wf k = true → v.coreS = true
